@@ -31,6 +31,9 @@ REG = {
                   "harness/translate_arcroutes.py + translate_routes.py (ArcBasedRoutingProblem.get_routes; numpy meanings in coq/theories/PyRoutes.v)"),
     "seqroutes": ("translate_seqroutes", "translate", "C07_routes_gen",
                   "harness/translate_seqroutes.py + translate_routes.py (SequenceBasedRoutingProblem.get_routes; coq/theories/PyRoutes.v)"),
+    "small": ("translate_small", "translate", "C08_small_gen",
+              "harness/translate_small.py (examples/small.py read off as the list of add_node / add_arc / add_route calls with their literal "
+              "arguments plus the literal defaults of the getters; what the calls do is Vrptw.v / Path.v)"),
 }
 
 
